@@ -8,10 +8,11 @@
     [C05_wf_invariant]) and every history; parameters: [od] = which names are served by an
     on-demand configuration, [idue] = whether the issuer hands out certificates that are
     already due. *)
-From Coq Require Import List Arith Bool Lia.
+From Coq Require Import List Arith Bool Lia NArith.
 From CM Require Import Maintain.Model Maintain.Spec Maintain.Base Maintain.Inv Maintain.Proofs
   Maintain.SpecSound Maintain.XModel Maintain.XProofs Maintain.XSound.
 From CM Require Maintain.Check.
+From CM Require Gen.Consts.
 Import ListNotations.
 
 (** ** Invariant. Its components include: identities are unique; what is stored under a name is a
@@ -346,6 +347,27 @@ Theorem C05_agreeing_case_satisfies_spec : forall c : Check.case,
   xspec_run (Check.od_of c) (Check.c_idue c) (Check.c_k c) [] (Check.c_obs0 c) (Check.c_hist c) = true.
 Proof. exact agreeing_case_satisfies_spec. Qed.
 Print Assumptions C05_agreeing_case_satisfies_spec.
+
+(** ** Facts about the source text the model rests on, re-read from the working tree by the
+    translator on every run ([harness/cmd/consts/c05.go]): a pass scans under the cache's read lock
+    and acts (reload loop, then renewal loop) after releasing it; the scan skips unmanaged
+    certificates and on-demand configurations, only fills its queues, and decides reload vs
+    renewal by the stored copy; the renewal job is named "renew_"+Names[0] both by a pass and by
+    manageOne (so they de-duplicate against each other), the obtain job is unnamed; renewCert and
+    obtainCert take the name's lock before, and outside of, the retry loop; forceRenew forces the
+    renewal of Names[0], reloads, and removes a certificate only if its status is Revoked;
+    certShouldBeForceRenewed = managed and Revoked. *)
+Theorem C05_source_shape :
+  Consts.pass_scans_under_read_lock = true /\ Consts.pass_acts_outside_lock_reload_then_renew = true /\
+  Consts.pass_scan_skips_unmanaged_and_on_demand = true /\ Consts.pass_scan_only_queues = true /\
+  Consts.pass_scan_decision_shape = true /\
+  Consts.renew_job_prefix = [114; 101; 110; 101; 119; 95]%N /\ Consts.renew_job_named_after_first_name = true /\
+  Consts.manage_renew_job_same_name = true /\ Consts.manage_obtain_job_unnamed = true /\
+  Consts.renew_lock_outside_retry = true /\ Consts.obtain_lock_outside_retry = true /\
+  Consts.force_renew_forces_first_name = true /\ Consts.force_renew_removes_only_revoked = true /\
+  Consts.force_renew_reloads = true /\ Consts.force_renew_for_managed_revoked = true.
+Proof. repeat split; reflexivity. Qed.
+Print Assumptions C05_source_shape.
 
 (** ** Non-vacuity: concrete well-formed states meeting the hypotheses *)
 Definition ex_od (n : name) : bool := n =? 2.
